@@ -556,6 +556,12 @@ func (w *c20World) runOp(op c20Op, dir string, rc *regclient.RegClient, o *ocidi
 			sz = br.GetDescriptor().Size
 		}
 		return c20Res{Sizes: []int64{sz}}
+	case "blob.mount":
+		tgt, _ := w.mkRef(dir, c20RefSpec{How: "settag", Tag: "mounted"})
+		if oci {
+			return c20Res{Err: o.BlobMount(ctx, r, tgt, d)}
+		}
+		return c20Res{Err: rc.BlobMount(ctx, r, tgt, d)}
 	case "blob.delete":
 		if oci {
 			return c20Res{Err: o.BlobDelete(ctx, r, d)}
